@@ -12,6 +12,21 @@ func init() { families = append(families, factsCompact) }
 func factsCompact() {
 	factsC30()
 	factsC34()
+	factsC29()
+}
+
+// C29: the order of the bucket-changing steps of a compaction and of one iteration of the compactor loop.
+func factsC29() {
+	const src = "pkg/compact/compact.go"
+	f := parse(src)
+	gc := fn(f, "Group", "compact")
+	emitList("groupCompactOrder", src+" Group.compact: order of compaction, upload of the result and marking of blocks (the first deleteBlock is the empty-result branch)",
+		callSeq(body(gc), "CompactWithBlockPopulator", "Upload", "deleteBlock"))
+	bc := fn(f, "BucketCompactor", "Compact")
+	emitList("compactLoopOrder", src+" BucketCompactor.Compact: order of sync, cleaning, garbage collection and grouping in one iteration",
+		callSeq(body(bc), "SyncMetas", "DeleteMarkedBlocks", "GarbageCollect", "Groups"))
+	del := fn(f, "Group", "deleteBlock")
+	emitList("deleteBlockMarks", src+" Group.deleteBlock marks for deletion (it does not delete)", callSeq(body(del), "MarkForDeletion", "Delete"))
 }
 
 // argText returns the text of the n-th argument of the first call to name in body ("unknown" if absent).
